@@ -4,6 +4,9 @@
 // ticks within the deviation bound. Oracle on the recorded timeline: never two
 // live generations, functions' contexts cancelled as soon as the generation
 // ends, heartbeats at the configured interval, LeaveGroup on Close, join back-off.
+// Plus scripted histories of generation endings: every sequence (up to length
+// 3, thorough 4) of ways in which successive generation attempts of one group
+// end; after each the group must start its next attempt in bounded time.
 package c15
 
 import (
@@ -23,6 +26,7 @@ import (
 
 	"verif/engine/fk"
 	"verif/engine/qx"
+	"verif/engine/seqx"
 )
 
 const (
@@ -59,12 +63,53 @@ type scn struct {
 	fine    bool
 	faults  map[protocol.ApiKey][]string
 	bound   int
+	// history, when set, scripts the coordinator: the k-th generation attempt of the group's lifetime is ended
+	// by history[k] (see endings), every other request is answered normally, and once the history has been
+	// played and one more generation has been handed out the group is closed. The scripted answers are the
+	// default choices; the only deviation offered is Close at any decision point.
+	history []ending
 }
+
+// ending is one way a generation attempt of a consumer group ends: the answer ans given to the first request
+// of kind key that the client sends in that attempt.
+type ending struct {
+	name     string
+	key      protocol.ApiKey
+	ans      string
+	reported bool // the failure is one that Next reports (join/sync/offset-fetch/find-coordinator); a failed heartbeat just ends the generation
+}
+
+// the alphabet of generation endings (one per class of outcome the group's run loop distinguishes: plain
+// failure before / while / after joining, rebalance signal on join / sync / heartbeat, other heartbeat
+// failure, lost connection)
+var endings = []ending{
+	{"join:err15", protocol.JoinGroup, "err:15", true},
+	{"join:err27", protocol.JoinGroup, "err:27", true},
+	{"join:drop", protocol.JoinGroup, "drop", true},
+	{"sync:err22", protocol.SyncGroup, "err:22", true},
+	{"sync:err27", protocol.SyncGroup, "err:27", true},
+	{"hb:err27", protocol.Heartbeat, "err:27", false},
+	{"hb:err25", protocol.Heartbeat, "err:25", false},
+	{"hb:drop", protocol.Heartbeat, "drop", false},
+	{"find:err15", protocol.FindCoordinator, "err:15", true},
+	{"offsets:err16", protocol.OffsetFetch, "err:16", true},
+}
+
+// rejoinBound: a group whose generation attempt has ended starts the next attempt (coordinator lookup, then
+// JoinGroup) at once or after the join back-off; with brokers that answer at once nothing else takes time, so
+// back-off plus one request timeout is generous.
+const rejoinBound = joinBackoff + 3*time.Second
+
+const histName = "generation-ending-histories"
 
 func (sc *scn) scenario() *qx.Scenario {
 	cfg := qx.Config{Fine: sc.fine, Horizon: 120 * time.Second, Quantum: 7 * time.Second, Grace: 10 * time.Second, MaxSteps: 700}
 	if sc.fine {
 		cfg.Files = []string{"consumergroup.go"}
+	}
+	if sc.history != nil {
+		cfg.NoTick = true // time passes by the scripted "wait" action only
+		cfg.MaxSteps = 400
 	}
 	return &qx.Scenario{Name: sc.name, Cfg: cfg, Body: func(x *qx.Exec) *qx.Outcome {
 		c := fk.New(1)
@@ -89,8 +134,12 @@ func (sc *scn) scenario() *qx.Scenario {
 		closeGate := make(chan struct{}, 1)
 		closeWanted := false
 		appDone := false
+		ngens := sc.gens
+		if sc.history != nil {
+			ngens = 99 // until the group is closed
+		}
 		x.Go("app", func() {
-			for i := 0; i < sc.gens; i++ {
+			for i := 0; i < ngens; i++ {
 				gen, err := cg.Next(context.Background())
 				mu.Lock()
 				nr := nextRec{Seq: tick(), At: x.Now()}
@@ -182,12 +231,11 @@ func (sc *scn) scenario() *qx.Scenario {
 		})
 		added := false
 		stale := ""
-		x.SetEnv(func() []qx.Action {
-			var acts []qx.Action
-			// Decisions are taken when every goroutine is blocked: a generation whose heartbeat was answered with an
-			// error (or whose watched topic was reported gone) in an earlier step has had all the time it needs to
-			// cancel the contexts of its functions. Virtual time alone cannot show this when the next event falls
-			// on the same instant.
+		// Decisions are taken when every goroutine is blocked: a generation whose heartbeat was answered with an
+		// error (or whose watched topic was reported gone) in an earlier step has had all the time it needs to
+		// cancel the contexts of its functions. Virtual time alone cannot show this when the next event falls
+		// on the same instant.
+		checkStale := func() {
 			if !sc.fine {
 				mu.Lock()
 				for _, f := range fns {
@@ -199,6 +247,102 @@ func (sc *scn) scenario() *qx.Scenario {
 				}
 				mu.Unlock()
 			}
+		}
+		// state of the scripted history
+		hIdx := 0                     // next ending to inject
+		hReports := 0                 // failures among the endings injected so far that Next has to report
+		var hEndAt []time.Duration    // when each ending was delivered
+		var hResumeAt []time.Duration // when the first request of the attempt following each ending arrived
+		closeReason := ""
+		histEnv := func() []qx.Action {
+			var acts []qx.Action
+			checkStale()
+			ps := c.Pending()
+			mu.Lock()
+			nerr := 0
+			finalRunning := false
+			for _, n := range nexts {
+				if n.Err != "" && !strings.Contains(n.Err, "closed") {
+					nerr++
+				}
+			}
+			if len(nexts) > 0 && nexts[len(nexts)-1].Err == "" {
+				for _, f := range fns {
+					if f.Gen == nexts[len(nexts)-1].Gen && f.Name == "waiter" && f.StartSeq > 0 && f.CancelSeq == 0 {
+						finalRunning = true
+					}
+				}
+			}
+			cw := closeWanted
+			mu.Unlock()
+			// The next ending is armed once Next has reported the failure of the previous one: whatever the client
+			// sends before that (its attempt to leave the group after a failure: coordinator lookup, LeaveGroup)
+			// still belongs to the attempt that failed.
+			armed := nerr >= hReports
+			if armed && !cw && len(hResumeAt) < len(hEndAt) {
+				for _, e := range ps {
+					if e.Key == protocol.FindCoordinator || e.Key == protocol.JoinGroup {
+						hResumeAt = append(hResumeAt, e.At)
+						break
+					}
+				}
+			}
+			doClose := func(why string) func() {
+				return func() {
+					mu.Lock()
+					closeWanted = true
+					mu.Unlock()
+					closeReason = why
+					closeGate <- struct{}{}
+				}
+			}
+			injected := false
+			for _, e := range ps {
+				e := e
+				ans := ""
+				if hIdx < len(sc.history) && armed && !cw && !injected && e.Key == sc.history[hIdx].key {
+					ans = sc.history[hIdx].ans
+					injected = true
+				}
+				label := "ok"
+				if ans != "" {
+					label = ans
+				}
+				acts = append(acts, qx.Action{Label: fmt.Sprintf("ans#%d(api%d):%s", e.Seq, e.Key, label), Do: func() {
+					if ans != "" {
+						if sc.history[hIdx].reported {
+							hReports++
+						}
+						hIdx++
+						hEndAt = append(hEndAt, x.Now())
+					}
+					c.Answer(e, ans)
+				}})
+			}
+			if len(ps) == 0 && !cw {
+				switch {
+				case hIdx == len(sc.history) && finalRunning:
+					// the history has been played and the generation that follows it is running
+					acts = append(acts, qx.Action{Label: "close(history played)", Do: doClose("played")})
+				case len(hResumeAt) < len(hEndAt) && x.Now()-hEndAt[len(hEndAt)-1] > rejoinBound:
+					// the group has come to a standstill: see what Close does in that state
+					acts = append(acts, qx.Action{Label: "close(no new attempt)", Do: doClose("standstill")})
+				}
+			}
+			if len(acts) == 0 && x.Now() < cfg.Horizon {
+				acts = append(acts, qx.Action{Label: "wait", Do: x.Tick})
+			}
+			if !cw && !(len(acts) > 0 && strings.HasPrefix(acts[0].Label, "close")) {
+				acts = append(acts, qx.Action{Label: "close", Do: doClose("deviation")})
+			}
+			return acts
+		}
+		x.SetEnv(func() []qx.Action {
+			if sc.history != nil {
+				return histEnv()
+			}
+			var acts []qx.Action
+			checkStale()
 			ps := c.Pending()
 			for _, e := range ps {
 				e := e
@@ -299,6 +443,33 @@ func (sc *scn) scenario() *qx.Scenario {
 		// (b) prompt cancellation: cause time == cancel time (virtual clock, event level only)
 		c.Lock()
 		g := c.Groups["g"]
+		// (h) histories of generation endings: after every ending the group starts its next attempt to join
+		if sc.history != nil {
+			njoin := 0
+			for _, e := range c.Journal {
+				if e.Key == protocol.JoinGroup {
+					njoin++
+				}
+			}
+			var played []string
+			for _, h := range sc.history[:hIdx] {
+				played = append(played, h.name)
+			}
+			fmt.Fprintf(&kb, "played=%d/%d close=%s ", hIdx, len(sc.history), closeReason)
+			for k, t := range hEndAt {
+				switch {
+				case k < len(hResumeAt):
+					if d := hResumeAt[k] - t; d > rejoinBound {
+						viol("late-rejoin", fmt.Sprintf("history %v: attempt %d ended at %v (%s); the next attempt to join began %v later, the back-off is %v", played, k+1, t, sc.history[k].name, d, joinBackoff))
+					}
+				case closeStartSeq == 0 || closeStartAt-t > rejoinBound:
+					viol("no-rejoin", fmt.Sprintf("history %v: attempt %d ended at %v (%s) and %d failure(s) were reported by Next, but no new attempt to join followed within %v (back-off %v): no FindCoordinator/JoinGroup reached the brokers after it (%d JoinGroup requests in all), Next yielded nothing more until the group was closed", played, k+1, t, sc.history[k].name, hReports, rejoinBound, joinBackoff, njoin))
+				}
+			}
+			if st == qx.StDone && closeReason == "" {
+				viol("history-not-played", fmt.Sprintf("the application finished although the group was never closed (history played: %v of %d)", played, len(sc.history)))
+			}
+		}
 		type cause struct {
 			at   time.Duration
 			what string
@@ -400,7 +571,18 @@ func (sc *scn) scenario() *qx.Scenario {
 			// the leave needs a fresh connection and a coordinator lookup: only demanded when the
 			// brokers answered everything the client sent after Close was called
 			brokersFine := true
+			// what happened before the generation handed out last was formed is history: it says nothing about
+			// the membership the group holds now
+			lastSync := -1
+			for _, n := range nexts {
+				if n.Member != "" {
+					lastSync = genSyncSeq[n.Gen]
+				}
+			}
 			for _, e := range c.Journal {
+				if e.Seq <= lastSync {
+					continue
+				}
 				// any failure other than a rebalance signal makes the group give its membership up on its own
 				// (it tries to leave and forgets the member id), which the application cannot observe
 				if e.Answer != "ok" && e.Answer != "err:27" {
@@ -416,6 +598,42 @@ func (sc *scn) scenario() *qx.Scenario {
 			}
 			if lastMember != "" && !left && stillMember && brokersFine {
 				viol("no-leave-on-close", fmt.Sprintf("Close returned but no LeaveGroup for member %q reached the coordinator (leaves: %v)", lastMember, leaves))
+			}
+			// The same from the coordinator's point of view (this also covers a group closed while it is not in a
+			// generation): the member id given out by the last JoinGroup answered normally is the group's
+			// current one as long as nothing but normal answers and rebalance signals (SyncGroup, Heartbeat)
+			// followed; the coordinator must not still count it as a member once Close has returned. Only in the
+			// scripted histories, where the environment never keeps a request waiting: which answer a client
+			// still received before one of its deadlines is then not in doubt.
+			var lastJoin *fk.Entry
+			for _, e := range c.Journal {
+				if sc.history != nil && e.Key == protocol.JoinGroup && e.Answer == "ok" {
+					lastJoin = e
+				}
+			}
+			if lastJoin != nil && g != nil {
+				fine := true
+				for _, e := range c.Journal {
+					if e.Seq < lastJoin.Seq {
+						continue
+					}
+					signal := e.Answer == "err:27" && (e.Key == protocol.SyncGroup || e.Key == protocol.Heartbeat)
+					if e.Answer != "ok" && !signal {
+						fine = false
+					}
+					limit := 3 * time.Second
+					if e.Key == protocol.JoinGroup || e.Key == protocol.SyncGroup {
+						limit = 9 * time.Second
+					}
+					if e.AnsweredAt-e.At >= limit {
+						fine = false
+					}
+				}
+				for _, id := range sortedMembers(g) {
+					if m := g.Members[id]; fine && m.Conn == lastJoin.Conn {
+						viol("no-leave-on-close", fmt.Sprintf("Close returned but the coordinator still counts %q (given out by the JoinGroup answered at %v, nothing but normal answers and rebalance signals since) as a member: no LeaveGroup for it reached the coordinator (leaves: %v)", id, lastJoin.AnsweredAt, leaves))
+					}
+				}
 			}
 			fmt.Fprintf(&kb, "closed leaves=%d ", len(leaves))
 			// nothing after Close returned
@@ -449,6 +667,15 @@ func (sc *scn) scenario() *qx.Scenario {
 		o.Obs = map[string]any{"nexts": nexts, "fns": fns}
 		return o
 	}}
+}
+
+func sortedMembers(g *fk.Group) []string {
+	var ids []string
+	for id := range g.Members {
+		ids = append(ids, id)
+	}
+	sort.Strings(ids)
+	return ids
 }
 
 func short(s string) string {
@@ -516,6 +743,94 @@ func suite(tier string) []qx.SuiteItem {
 	return items
 }
 
+// histories enumerates every sequence of generation endings up to length n (shorter ones first).
+func histories(n int) [][]ending {
+	var out [][]ending
+	cur := [][]ending{nil}
+	for l := 1; l <= n; l++ {
+		var next [][]ending
+		for _, h := range cur {
+			for _, e := range endings {
+				next = append(next, append(append([]ending(nil), h...), e))
+			}
+		}
+		out = append(out, next...)
+		cur = next
+	}
+	return out
+}
+
+func histID(h []ending) string {
+	var names []string
+	for _, e := range h {
+		names = append(names, e.name)
+	}
+	return strings.Join(names, ",")
+}
+
+// TestCheck: the explorer's scenarios (every schedule within the deviation bound), then the scripted
+// histories of generation endings: every sequence over the alphabet `endings` up to length 3 (thorough: 4),
+// each played by the default schedule, the shorter ones (<= 2, thorough <= 3) also with Close at every
+// decision point.
 func TestCheck(t *testing.T) {
-	qx.RunSuite(t, suite(os.Getenv("VERIF_TIER")))
+	tier := os.Getenv("VERIF_TIER")
+	items := suite(tier)
+	if rp := os.Getenv("VERIF_REPLAY"); rp != "" {
+		if b, err := os.ReadFile(rp); err == nil && !strings.Contains(string(b), `"`+histName+`"`) {
+			qx.RunSuite(t, items)
+			return
+		}
+	}
+	s := seqx.New(t)
+	maxLen, devLen := 3, 2
+	if tier == "thorough" {
+		maxLen, devLen = 4, 3
+	}
+	s.Begin(histName)
+	only := os.Getenv("VERIF_ONLY")
+	for _, h := range histories(maxLen) {
+		if only != "" && only != histName {
+			break
+		}
+		if s.TimeUp() {
+			break
+		}
+		h := h
+		bound := 0
+		if len(h) <= devLen {
+			bound = 1
+		}
+		s.Case(histID(h), map[string]any{"history": histID(h), "close_deviations": bound}, func() (string, *seqx.Viol) {
+			sc := &scn{name: histName, history: h}
+			e := &qx.Explorer{T: t, Scn: sc.scenario(), Bound: bound, ReplayEvery: 13}
+			st := e.Explore()
+			s.Add("executions", st.Executions)
+			s.Add("decision_steps", int(st.Steps))
+			s.Add("replayed_for_determinism", st.Replayed)
+			s.Add("nondeterministic_replays", st.NonDet)
+			s.Add("leaks", st.Leaks)
+			var keys []string
+			for k := range st.Outcomes {
+				keys = append(keys, k)
+			}
+			sort.Strings(keys)
+			key := strings.Join(keys, " | ")
+			if st.NonDet > 0 {
+				return key, &seqx.Viol{Sig: "nondeterministic", Msg: fmt.Sprintf("history %s: %d executions did not replay identically", histID(h), st.NonDet)}
+			}
+			if len(st.Violations) > 0 {
+				v := st.Violations[0]
+				var sched []string
+				for _, stp := range v.Result.Steps {
+					sched = append(sched, stp.Label)
+				}
+				return key, &seqx.Viol{Sig: v.Result.Outcome.Sig, Msg: fmt.Sprintf("%s [history %s, %d deviation(s), schedule: %s]", v.Result.Outcome.Violation, histID(h), v.Bound, strings.Join(sched, " / "))}
+			}
+			return key, nil
+		})
+	}
+	if s.Replay == nil {
+		s.AddStats(qx.ExploreAll(t, items, s.Remaining())...)
+	}
+	s.Finish()
 }
